@@ -291,12 +291,19 @@ def translate(pins: dict | None = None):
     v.append(f"  clear_keeps_parent := {b(keeps_parent)}")
     v.append("|}.")
     v.append("(* The theorems of Props/C26.v are about [shipped] (refuted + partial), [fixed] and [fixed_uc] (hold). *)")
-    v.append(f"Lemma C26_tie : gen = {name or 'shipped'}.")
-    v.append("Proof. vm_compute. reflexivity. Qed.")
-    return "\n".join(v) + "\n", got, name
+    if name:
+        v.append(f"Lemma C26_tie : gen = {name}.")
+        v.append("Proof. vm_compute. reflexivity. Qed.")
+    else:
+        v.append("Lemma C26_tie : gen = shipped \\/ gen = fixed \\/ gen = fixed_uc.")
+        v.append("Proof. first [left; reflexivity | right; left; reflexivity | right; right; reflexivity]. Qed.")
+    record = (f"{{| merge_variant := {variant}; update_plan := {plan}; job_parent_first := {b(job_first)}; "
+              f"run_config_first := {b(run_first)}; clear_keeps_parent := {b(keeps_parent)} |}}")
+    info = {"name": name, "record": record, "witness_expected": variant == "AsShipped" and plan == flat}
+    return "\n".join(v) + "\n", got, info
 
 
 if __name__ == "__main__":
-    text, pins, name = translate()
+    text, pins, info = translate()
     sys.stdout.write(text)
-    print(pins, name, file=sys.stderr)
+    print(pins, info, file=sys.stderr)
